@@ -17,9 +17,9 @@ def sh(cmd, cwd=None, env=None, timeout=900):
 def do_import(name, wt, prop, needs):
   d = os.path.join(V, 'seeded', name)
   os.makedirs(d, exist_ok=True)
-  diff = sh(['git', '-C', wt, 'diff', '--', 'scales']).stdout
+  diff = subprocess.run(['git', '-C', wt, 'diff', '--', 'scales'], capture_output=True).stdout   # bytes: keep CRLF
   assert diff.strip(), 'no source change in worktree'
-  open(os.path.join(d, 'patch.diff'), 'w').write(diff)
+  open(os.path.join(d, 'patch.diff'), 'wb').write(diff)
   demos = glob.glob(os.path.join(wt, 'demo_*.py'))
   assert demos, 'no demo'
   demo = demos[0]
